@@ -42,7 +42,7 @@ CHECKS["C04"] = (
     "2..3 real processes with long-lived Collection handles (different spellings of one path, different buffer sizes) run every program tuple of reading()/writing() sessions; a controller "
     "owns every lock and file action (fasteners trylock/unlock and the library stream are wrapped at run time) and executes EVERY schedule with <= 2 (thorough: 3) preemptions; a second "
     "family injects one exception at every fault point of a session (body, encoder, n-th file write, close, open, final flush losing the buffered data, an item that can never be written); further families: "
-    "the library re-created by another process, processes configured by different routes (environment / configure()), writing sessions that read before they store, handles received by pickle from a parent that created the library with overwrite=True, one process working on two libraries; a lifecycle family adds sessions with a timeout (they give up instead of waiting) and processes that terminate normally while others keep working (the library's atexit hooks run under the scheduler). Oracles: file-level writer exclusion monitor, lock compatibility, no "
+    "the library re-created by another process, processes configured by different routes (environment / configure()), writing sessions that read before they store, handles received by pickle from a parent that created the library with overwrite=True, one process working on two libraries (sequentially, and with a session on the second one nested inside a session on the first), a process that gives up on a session, continues with a new handle and drops the old one in the middle of a session, sessions ended by KeyboardInterrupt/GeneratorExit/SystemExit; before every action of a lock holder the controller (a third process) probes the lock file with a conflicting non-blocking lock, which must be refused; a lifecycle family adds sessions with a timeout (they give up instead of waiting) and processes that terminate normally while others keep working (the library's atexit hooks run under the scheduler). Oracles: file-level writer exclusion monitor, lock compatibility, no "
     "deadlock, state idle/file closed/lock acquirable by a third process after every session, final contents (fresh reader + independent parser) vs. the records of completed sessions, "
     "readers see complete committed records only; each reported schedule is replayed and must give the same verdict. A TLA+ session-level model (models/Sessions.tla) is explored exhaustively by TLC; ALL of its "
     "behaviours are replayed against the implementation through the scheduler (the implementation must follow each and satisfy the same oracles), and every lock-level event sequence the explorer observes on the "
